@@ -377,25 +377,29 @@ func (ex *Exec) evalBuiltin(st *State, call *ast.CallExpr, name string) []Val {
 }
 
 // evalAppend models append faithfully: in place when capacity suffices, fresh
-// backing array otherwise.
+// backing array otherwise. The resulting inner array is a fresh symbol `res`
+// specified declaratively over absolute positions:
+//   prefix:   res[off'+j] = old[off+j]                 (j < len)
+//   appended: res[off'+len+i] = new element i
+//   frame:    in place, every other position of the array is unchanged
+// with off' = off in place and 0 otherwise.
 func (ex *Exec) evalAppend(st *State, call *ast.CallExpr) Val {
-	st0t := ex.typeOf(call.Args[0])
 	s := ex.evalTyped(st, call.Args[0], ex.typeOf(call))
-	_ = st0t
 	rt := ex.typeOf(call)
 	et := rt.Underlying().(*types.Slice).Elem()
 	cs := flatten(et)
 	p := sliceParts(s)
 	ex.mutCount++
+	var n *Term
+	var elems []Val
+	var srcElem func(i *Term, k int) *Term // element i of the appended sequence, component k (pre-state)
+	var srcArr, srcOff *Term
+	heaps := make([]*Term, len(cs))
+	for k, c := range cs {
+		_, heaps[k] = st.elemHeap(et, c)
+	}
 	if call.Ellipsis.IsValid() {
 		src := ex.eval(st, call.Args[1])
-		var n *Term
-		var srcElem func(i *Term, k int) *Term // element i of source, component k (pre-state)
-		heaps := make([]*Term, len(cs))
-		for k, c := range cs {
-			_, heaps[k] = st.elemHeap(et, c)
-		}
-		var srcArr, srcOff *Term
 		if isString(src.T) {
 			n = StrLen(src.term())
 			srcElem = func(i *Term, k int) *Term { return StrAt(src.term(), i) }
@@ -405,72 +409,80 @@ func (ex *Exec) evalAppend(st *State, call *ast.CallExpr) Val {
 			srcArr, srcOff = sp.arr, sp.off
 			srcElem = func(i *Term, k int) *Term { return Select(Select(heaps[k], sp.arr), Add(sp.off, i)) }
 		}
-		inPlace := Le(Add(p.len, n), p.cap)
-		newArr := st.alloc()
-		newCap := Fresh("cap", SInt)
-		st.assume(Ge(newCap, Add(p.len, n)))
-		start := Add(p.off, p.len) // first written absolute position (in place)
-		for k, c := range cs {
-			nm, _ := st.elemHeap(et, c)
-			h := heaps[k]
-			old := Select(h, p.arr)
-			// in place: positions [start, start+n) receive the source
-			inA := Fresh("app.in", SArr(SInt, c.Sort))
-			i := BVar("i", SInt)
-			st.assume(Forall([]*Term{i}, Eq(Select(inA, i), Ite(And(Le(start, i), Lt(i, Add(start, n))), srcElem(Sub(i, start), k), Select(old, i))), []*Term{Select(inA, i)}))
-			// fresh: prefix copied to offset 0, then the source
-			outA := Fresh("app.out", SArr(SInt, c.Sort))
-			j := BVar("j", SInt)
-			st.assume(Forall([]*Term{j}, Implies(And(Le(IntLit(0), j), Lt(j, Add(p.len, n))),
-				Eq(Select(outA, j), Ite(Lt(j, p.len), Select(old, Add(p.off, j)), srcElem(Sub(j, p.len), k)))), []*Term{Select(outA, j)}))
-			{
-				// unchanged part, triggered by reads of the old array
-				u := BVar("u", SInt)
-				st.assume(Forall([]*Term{u}, Implies(Or(Lt(u, start), Ge(u, Add(start, n))), Eq(Select(inA, u), Select(old, u))), []*Term{Select(old, u)}))
-			}
-			if srcArr != nil {
-				// backward triggers on the source array
-				m := BVar("m", SInt)
-				srcSel := Select(Select(h, srcArr), m)
-				inRange := And(Le(srcOff, m), Lt(m, Add(srcOff, n)))
-				st.assume(Forall([]*Term{m}, Implies(inRange, Eq(Select(inA, Add(start, Sub(m, srcOff))), srcSel)), []*Term{srcSel}))
-				st.assume(Forall([]*Term{m}, Implies(inRange, Eq(Select(outA, Add(p.len, Sub(m, srcOff))), srcSel)), []*Term{srcSel}))
-			}
-			st.heapSet(nm, Store(h, Ite(inPlace, p.arr, newArr), Ite(inPlace, inA, outA)))
+	} else {
+		for _, a := range call.Args[1:] {
+			elems = append(elems, ex.evalTyped(st, a, et))
 		}
-		return mkSlice(rt, Ite(inPlace, p.arr, newArr), Ite(inPlace, p.off, IntLit(0)), Add(p.len, n), Ite(inPlace, p.cap, newCap))
-	}
-	// explicit elements
-	var elems []Val
-	for _, a := range call.Args[1:] {
-		elems = append(elems, ex.evalTyped(st, a, et))
-	}
-	n := IntLit(int64(len(elems)))
-	if len(elems) == 0 {
-		return s
+		if len(elems) == 0 {
+			return s
+		}
+		n = IntLit(int64(len(elems)))
+		for k := range cs {
+			_, heaps[k] = st.elemHeap(et, cs[k]) // element evaluation may have changed the heap
+		}
 	}
 	inPlace := Le(Add(p.len, n), p.cap)
+	if inPlace != True && inPlace != False {
+		// split the path on this condition at the next statement boundary
+		st.pendingSplits = append(st.pendingSplits, inPlace)
+	}
+	grow := Not(inPlace)
 	newArr := st.alloc()
 	newCap := Fresh("cap", SInt)
 	st.assume(Ge(newCap, Add(p.len, n)))
+	start := Add(p.off, p.len) // first appended absolute position when in place
 	for k, c := range cs {
-		nm, h := st.elemHeap(et, c)
+		nm, _ := st.elemHeap(et, c)
+		h := heaps[k]
 		old := Select(h, p.arr)
-		inA := old
-		for i, e := range elems {
-			inA = Store(inA, Add(Add(p.off, p.len), IntLit(int64(i))), e.C[k])
+		// ---- in place: array inA ----
+		inA := Fresh("app.in", SArr(SInt, c.Sort))
+		if elems != nil {
+			// appended positions hold the new elements, every other position is unchanged
+			for i, e := range elems {
+				st.assume(Implies(inPlace, Eq(Select(inA, Add(start, IntLit(int64(i)))), e.C[k])))
+			}
+			i := BVar("i", SInt)
+			outside := Or(Lt(i, start), Ge(i, Add(start, n)))
+			st.assume(Implies(inPlace, Forall([]*Term{i}, Implies(outside, Eq(Select(inA, i), Select(old, i))), []*Term{Select(inA, i)})))
+			u := BVar("u", SInt)
+			outsideU := Or(Lt(u, start), Ge(u, Add(start, n)))
+			st.assume(Implies(inPlace, Forall([]*Term{u}, Implies(outsideU, Eq(Select(inA, u), Select(old, u))), []*Term{Select(old, u)})))
+		} else {
+			i := BVar("i", SInt)
+			st.assume(Implies(inPlace, Forall([]*Term{i}, Eq(Select(inA, i), Ite(And(Le(start, i), Lt(i, Add(start, n))), srcElem(Sub(i, start), k), Select(old, i))), []*Term{Select(inA, i)})))
+			u := BVar("u", SInt)
+			st.assume(Implies(inPlace, Forall([]*Term{u}, Implies(Or(Lt(u, start), Ge(u, Add(start, n))), Eq(Select(inA, u), Select(old, u))), []*Term{Select(old, u)})))
+			if srcArr != nil {
+				m := BVar("m", SInt)
+				srcSel := Select(Select(h, srcArr), m)
+				st.assume(Implies(inPlace, Forall([]*Term{m}, Implies(And(Le(srcOff, m), Lt(m, Add(srcOff, n))), Eq(Select(inA, Add(start, Sub(m, srcOff))), srcSel)), []*Term{srcSel})))
+			}
 		}
+		// ---- grown: fresh array outA at offset 0 ----
 		outA := Fresh("app.out", SArr(SInt, c.Sort))
 		j := BVar("j", SInt)
-		st.assume(Forall([]*Term{j}, Implies(And(Le(IntLit(0), j), Lt(j, p.len)), Eq(Select(outA, j), Select(old, Add(p.off, j)))), []*Term{Select(outA, j)}))
-		// backward trigger on the old array
-		m := BVar("m", SInt)
-		st.assume(Forall([]*Term{m}, Implies(And(Le(p.off, m), Lt(m, Add(p.off, p.len))), Eq(Select(outA, Sub(m, p.off)), Select(old, m))), []*Term{Select(old, m)}))
-		outB := outA
-		for i, e := range elems {
-			outB = Store(outB, Add(p.len, IntLit(int64(i))), e.C[k])
+		st.assume(Implies(grow, Forall([]*Term{j}, Implies(And(Le(IntLit(0), j), Lt(j, p.len)), Eq(Select(outA, j), Select(old, Add(p.off, j)))), []*Term{Select(outA, j)})))
+		u := BVar("u", SInt)
+		st.assume(Implies(grow, Forall([]*Term{u}, Implies(And(Le(p.off, u), Lt(u, Add(p.off, p.len))), Eq(Select(outA, Sub(u, p.off)), Select(old, u))), []*Term{Select(old, u)})))
+		if elems != nil {
+			for i, e := range elems {
+				st.assume(Implies(grow, Eq(Select(outA, Add(p.len, IntLit(int64(i)))), e.C[k])))
+			}
+		} else {
+			j2 := BVar("j", SInt)
+			st.assume(Implies(grow, Forall([]*Term{j2}, Implies(And(Le(p.len, j2), Lt(j2, Add(p.len, n))), Eq(Select(outA, j2), srcElem(Sub(j2, p.len), k))), []*Term{Select(outA, j2)})))
+			if srcArr != nil {
+				m := BVar("m", SInt)
+				srcSel := Select(Select(h, srcArr), m)
+				st.assume(Implies(grow, Forall([]*Term{m}, Implies(And(Le(srcOff, m), Lt(m, Add(srcOff, n))), Eq(Select(outA, Add(p.len, Sub(m, srcOff))), srcSel)), []*Term{srcSel})))
+			}
 		}
-		st.heapSet(nm, Store(h, Ite(inPlace, p.arr, newArr), Ite(inPlace, inA, outB)))
+		if info, ok := heapCompInfo[nm]; ok {
+			registerHeapAxiomInner(inA, info, st.ctr)
+			registerHeapAxiomInner(outA, info, st.ctr)
+		}
+		st.heapSet(nm, Store(h, Ite(inPlace, p.arr, newArr), Ite(inPlace, inA, outA)))
 	}
 	return mkSlice(rt, Ite(inPlace, p.arr, newArr), Ite(inPlace, p.off, IntLit(0)), Add(p.len, n), Ite(inPlace, p.cap, newCap))
 }
@@ -613,6 +625,13 @@ func (ex *Exec) resultNames(c *Contract, sig *types.Signature) []string {
 func (ex *Exec) applyContract(st *State, call ast.Node, c *Contract, sig *types.Signature, key string, recv *Val, args []Val, fi *FuncInfo) []Val {
 	ex.callSeq++
 	seq := ex.callSeq
+	if fi != nil {
+		if c.Opts["trusted"] != "" {
+			ex.note("TRUSTED contract of " + key + " (" + c.Opts["trusted"] + "): its body is not verified against it")
+		} else {
+			ex.note("relies on the contract of " + key + " (discharged under its own obligations)")
+		}
+	}
 	env := ex.contractEnv(c, sig, recv, args)
 	pre := st.clone()
 	ghosts := map[string]*GhostInst{}
@@ -654,6 +673,14 @@ func (ex *Exec) applyContract(st *State, call ast.Node, c *Contract, sig *types.
 		inst[g.Name] = gi
 	}
 	ex.lastGhost[key] = inst
+	short := key
+	if i := strings.LastIndex(short, "."); i >= 0 {
+		short = short[i+1:]
+	}
+	for gname, gi := range inst {
+		st.setCallGhost(key+"$"+gname, gi)
+		st.setCallGhost(short+"$"+gname, gi)
+	}
 	for _, e := range c.Ensures {
 		t := ex.evalSpecBoolAt(mk(st, pre), e.E, key+" ensures")
 		st.assume(t)
